@@ -66,6 +66,8 @@ func rulesC19(c *Ctx) {
 	R.Rule("R5", "outputs are derived from the stored counter of the keyset they are derived on: the counter handed to the derivation was read for the same keyset id", 4)
 	c.c19CounterKeysetAgreement()
 	R.Rule("R8", "the counter is read from storage at the time of use: the wallet's counter accessor returns the stored value itself, not an in-memory copy that another path can leave behind", 1)
+	R.Rule("R10", "a stored keyset record - and with it the keyset's counter - is never deleted: no Delete / DeleteBucket under the keysets bucket except where a mint's records are moved to a new URL", 2)
+	c.ruleKeysetRecordsNeverDeleted("R10")
 	R.Rule("R9", "restore answers are computed afresh: the restore endpoint is not served from the mint's response cache (shared with C20.R4; a cached 'nothing signed' batch hides what was signed since)", 10)
 	R.Rule("R7", "a counter value read for deriving outputs is not made stale before those outputs are submitted: no call that itself derives outputs and advances a counter lies between the read and the submission", 3)
 	R.Rule("R6", "the wallet lock is not dropped between reading a keyset counter and advancing it", 3)
@@ -1015,4 +1017,100 @@ func (c *Ctx) c19LockSpan() {
 	if n == 0 {
 		R.Unresolved("R6", "wallet functions that read and advance a counter", "none found")
 	}
+}
+
+// ruleKeysetRecordsNeverDeleted: R10. The stored keyset record carries the NUT-13 counter; once it is gone the next use
+// of that keyset starts at counter 0 and resubmits outputs the mint has signed. Census of the wallet's bolt layer: no
+// Delete / DeleteBucket on a bucket reached through the keysets bucket, except in the method of the reference tree
+// that moves a mint's records under a new URL (it copies them first; C17 decides that).
+func (c *Ctx) ruleKeysetRecordsNeverDeleted(rule string) {
+	R := c.R
+	name, ok := c.P.ConstVal("wallet/storage", "KEYSETS_BUCKET")
+	if !ok {
+		R.Unresolved(rule, "KEYSETS_BUCKET constant", "not found in wallet/storage")
+		return
+	}
+	name = strings.Trim(name, "\"")
+	var fromKeysets func(v ssa.Value, depth int) bool
+	fromKeysets = func(v ssa.Value, depth int) bool {
+		if depth > 8 {
+			return false
+		}
+		switch x := v.(type) {
+		case *ssa.Call:
+			d := c.P.Describe(x)
+			if strings.HasSuffix(d.Name, ").Bucket") || strings.HasSuffix(d.Name, ").CreateBucketIfNotExists") || strings.HasSuffix(d.Name, ").CreateBucket") {
+				for _, a := range d.Args {
+					if cv, ok := a.(*ssa.Convert); ok {
+						a = cv.X // []byte("keysets")
+					}
+					if parts, complete := constStringParts(a); complete && strings.Join(parts, "") == name {
+						return true
+					}
+				}
+				if d.Recv != nil {
+					return fromKeysets(d.Recv, depth+1)
+				}
+			}
+		case *ssa.Extract:
+			return fromKeysets(x.Tuple, depth+1)
+		case *ssa.Phi:
+			for _, e := range x.Edges {
+				if fromKeysets(e, depth+1) {
+					return true
+				}
+			}
+		case *ssa.UnOp:
+			if al, ok := x.X.(*ssa.Alloc); ok && al.Referrers() != nil {
+				for _, r := range *al.Referrers() {
+					if st, ok := r.(*ssa.Store); ok && st.Addr == ssa.Value(al) && fromKeysets(st.Val, depth+1) {
+						return true
+					}
+				}
+			}
+			if fv, ok := x.X.(*ssa.FreeVar); ok {
+				// captured bucket variable: look at what the enclosing function stores into it
+				if mc := FindMakeClosure(fv.Parent()); mc != nil {
+					for i, b := range mc.Bindings {
+						if i < len(fv.Parent().FreeVars) && fv.Parent().FreeVars[i] == fv {
+							if al, ok := b.(*ssa.Alloc); ok && al.Referrers() != nil {
+								for _, r := range *al.Referrers() {
+									if st, ok := r.(*ssa.Store); ok && st.Addr == ssa.Value(al) && fromKeysets(st.Val, depth+1) {
+										return true
+									}
+								}
+							}
+						}
+					}
+				}
+			}
+		}
+		return false
+	}
+	n, seen := 0, 0
+	for _, f := range c.P.Funcs {
+		top := EnclosingTop(f)
+		if top.Pkg == nil || c.P.Rel(top.Pkg.Pkg.Path()) != "wallet/storage" {
+			continue
+		}
+		for _, ci := range Calls(f) {
+			d := c.P.Describe(ci)
+			if !strings.Contains(d.Name, "bbolt") || !(strings.HasSuffix(d.Name, ").Delete") || strings.HasSuffix(d.Name, ").DeleteBucket")) {
+				continue
+			}
+			seen++
+			if d.Recv == nil || !fromKeysets(d.Recv, 0) {
+				continue
+			}
+			n++
+			okF := c.P.FuncKey(top) == "wallet/storage.(*BoltDB).UpdateKeysetMintURL"
+			R.Check(rule, c.P.FuncKey(top), "keyset records are not deleted ("+d.Name[strings.LastIndex(d.Name, ".")+1:]+")", c.P.InstrPos(ci), okF,
+				"nothing deletes a stored keyset record (it holds the NUT-13 counter of that keyset)", "a record of the keysets bucket is deleted here")
+		}
+	}
+	if seen == 0 {
+		R.Unresolved(rule, "bolt deletions in wallet/storage", "none found")
+		return
+	}
+	R.Check(rule, "wallet/storage", "deletions in the bolt layer examined", "wallet/storage/bolt.go", true, fmt.Sprintf("%d Delete / DeleteBucket calls examined, %d on the keysets bucket", seen, n), "")
 }
